@@ -206,7 +206,7 @@ static int histMode(const char *inFile, const char *outFile)
         std::vector<std::vector<int> > ops(nops);
         for (auto &o : ops) {
             int t; in >> t; o.push_back(t);
-            int n = t == 1 ? 5 : t == 2 ? 3 : t == 3 ? 1 : t == 4 ? 4 : t == 5 ? 0 : 1;
+            int n = (t == 1 || t == 7) ? 5 : t == 2 ? 3 : t == 3 ? 1 : t == 4 ? 4 : t == 5 ? 0 : 1;
             for (int k = 0; k < n; k++) { int v; in >> v; o.push_back(v); }
         }
         vt::J j; j.obj().k("mode").i(mode).k("P").i(P).k("ops").arr();
@@ -236,6 +236,7 @@ static int histMode(const char *inFile, const char *outFile)
                             else { conns.at(o[1] - 1)->setDestEndpoint(ConnEnd(Point(o[3], o[4]))); ends[o[1] - 1].second = Point(o[3], o[4]); }
                             processed = !txn; break;
                     case 5: router->processTransaction(); processed = true; break;
+                    case 7: { Rectangle rc(Point(o[2], o[3]), Point(o[4], o[5])); router->moveShape(shapes.at(o[1]), rc); processed = !txn; break; }   // absolute move / resize
                     case 6: txn = o[1] != 0; router->setTransactionUse(txn); break;
                 }
                 if (processed) histStep(j, (int)i + 1, router, shapes, conns, ends, mode, P);
